@@ -24,6 +24,8 @@ static const char* kind_of(const std::string& msg) {
   if (msg.rfind("No match for call", 0) == 0) return "nomatch";
   if (msg.rfind("Match of forbidden call", 0) == 0) return "forbidden";
   if (msg.rfind("Unfulfilled expectation", 0) == 0) return "unfulfilled";
+  if (msg.rfind("Unexpected destruction of", 0) == 0) return "unexpected_destruction";
+  if (msg.find("is still alive") != std::string::npos) return "still_alive";
   return "other";
 }
 
@@ -31,6 +33,16 @@ static const char* kind_of(const std::string& msg) {
 // alive until the end of the scope
 static std::vector<std::string> reference(const Case& c, const std::vector<int>& cs) {
   std::vector<std::string> log; int count = 0;
+  if (c.fn == 'd') {
+    // a destruction requirement lives to the end of its scope: a death inside it is silent, survival is one "still alive"
+    // report at the end of the scope, and a death after it is unexpected
+    bool deleted = false;
+    for (int a : cs) { if (a == 1) log.push_back("v(1) ok: hit0"); else if (!deleted) { deleted = true; log.push_back("delete:"); } }
+    log.push_back("end-of-scope:");
+    log.push_back(std::string("after-scope:") + (deleted ? "" : " N:still_alive"));
+    if (!deleted) log.push_back("late-delete: N:unexpected_destruction");
+    return log;
+  }
   auto base = [&](int a) {
     return c.fn == 'v' ? "v(" + std::to_string(a) + ") ok: hit0" : "f(" + std::to_string(a) + ") ->0: hit0";
   };
